@@ -12,17 +12,36 @@
 //!                                                     -> `crate::lalloc::{alloc,dealloc}` (loom-tracked
 //!                                                        allocations + ledger + quarantine, see main.rs)
 //!  * `once_cell::…`                                  -> `crate::once_cell_loom::…` (loom-based OnceCell)
-//!  * entry.rs: `EntryStorage.value: UnsafeCell<T>`  -> `crate::tracked::TrackedCell<T>` (std cell + loom
-//!    access marker); `&mut *e.value.get()` -> `get_w()`, any other `e.value.get()` -> `get_r()`
+//!  * entry.rs `EntryStorage.value`, cell.rs `OnceInitCell.data`: `UnsafeCell<T>` ->
+//!    `crate::tracked::TrackedCell<T>` (std cell + loom access marker); every `<e>.<field>.get()` is
+//!    classified as write (`get_w()`) or read (`get_r()`), rules at `Rw::visit_expr_mut`
 //!  * `const fn`                                      -> `fn`   (loom constructors are not const)
 //!  * inner attributes (`//!` docs) of the file        -> removed (not allowed in an `include!`)
 //!  * `#[cfg(..)]`/`#[cfg_attr(..)]`: `feature = "hot-reloading"`/`"utils"` evaluate to true
 //!    (`all()`), every other `feature = ".."` and `docsrs` to false (`any()`); rustc then prunes.
 //!
-//! The build FAILS if a file no longer contains the paths it is supposed to redirect, or if a
-//! path that must not survive (`std::sync`, `core::sync`, `std::thread`, `once_cell::`,
-//! un-redirected `alloc::alloc(`/`alloc::dealloc(`) is still present after rewriting: a silently
-//! un-instrumented kernel cannot pass as verified.
+//!  * a lower-case name that the file's own `use` items bind to a std module (`use std::alloc;`,
+//!    `use std::sync::atomic::{self, ..}`) is expanded first, so `alloc::alloc(..)`, `atomic::fence(..)`
+//!    are redirected like their fully spelled forms
+//!  * `std::sync::atomic::compiler_fence` -> `crate::kshim::compiler_fence` (loom has none; it has no
+//!    inter-thread meaning); `std::process::abort`, `NonNull`, `Layout::*`, `handle_alloc_error` stay std
+//!
+//! FAILURE ISOLATION.  The package has one bin target per kernel family (see Cargo.toml).  This
+//! script never fails for a problem in one kernel's source: if a kernel cannot be read, parsed,
+//! rewritten, or fails a guard, its generated file(s) become a single
+//! `compile_error!("kernmc: <kernel>: <reason>")` (plus a `cargo:warning`), so only the bin that
+//! includes that kernel stops building and says why; the other bins are unaffected.
+//!
+//! GUARDS exist to keep an un-instrumented (vacuous) kernel from passing as verified.  They are
+//! semantic, not counts of today's call sites: (a) after rewriting, no path that resolves to
+//! `std::sync`/`core::sync` (atomics, Mutex, RwLock, Condvar, Arc, ...), `std::thread`, the global
+//! allocator entry points, `once_cell`, `parking_lot` or `crossbeam` may remain in the kernel text
+//! (also inside macro arguments, where the rewriter cannot reach); (b) a kernel that needs a
+//! redirection at all must have had at least one of that kind; (c) structural needs of a harness
+//! (the `value` field of `EntryStorage`, the methods of `Answers`).  At run time every sub-check
+//! additionally starts with an `instrumentation-probe` config that measures that each kernel
+//! operation really produces loom scheduling points / tracked allocations (see src/probe notes in
+//! README) — that is the actual condition for "instrumented", whatever the spelling.
 use proc_macro2::{Group, TokenStream, TokenTree};
 use quote::ToTokens;
 use std::{collections::BTreeMap, env, fs, path::PathBuf};
@@ -36,14 +55,18 @@ struct Rw {
     sync_root: Vec<String>,
     /// redirect category -> number of rewritten paths
     hits: BTreeMap<&'static str, usize>,
-    /// `use std::alloc;` (module import) seen: `alloc::alloc(..)` then means `std::alloc::alloc`
-    alloc_module_imported: bool,
+    /// lower-case names bound by the file's `use` items to std/core/alloc paths (module imports such
+    /// as `use std::alloc;`, `use std::sync::atomic::{self}`), name -> original path
+    aliases: BTreeMap<String, Vec<String>>,
     consts_stripped: usize,
     cfgs_rewritten: usize,
-    /// entry.rs only: `EntryStorage.value: UnsafeCell<T>` -> `crate::tracked::TrackedCell<T>`,
-    /// `value: UnsafeCell::new(..)` -> `TrackedCell::new(..)`, `&mut *e.value.get()` -> `get_w()`,
-    /// any other `e.value.get()` -> `get_r()`
-    track_value_cell: bool,
+    /// (struct, field): the field `UnsafeCell<..>` of that struct becomes `crate::tracked::TrackedCell<..>`
+    /// (entry.rs: `EntryStorage.value`, cell.rs: `OnceInitCell.data`); its initialisers
+    /// `<field>: UnsafeCell::new(..)` become `TrackedCell::new(..)`; every `<e>.<field>.get()` is
+    /// classified as a write (`get_w`) or a read (`get_r`) access, see `visit_expr_mut`.
+    track: Option<(&'static str, &'static str)>,
+    /// > 0 while visiting a closure passed to a method of a `.once` receiver (exclusive section)
+    in_once_closure: usize,
 }
 
 fn v(xs: &[&str]) -> Vec<String> {
@@ -55,18 +78,18 @@ impl Rw {
     fn redirect(&self, segs: &[String]) -> Option<(Vec<String>, &'static str)> {
         let s: Vec<&str> = segs.iter().map(|s| s.as_str()).collect();
         match s.as_slice() {
+            ["std" | "core", "sync", "atomic", "compiler_fence"] => Some((v(&["crate", "kshim", "compiler_fence"]), "sync")),
             ["std" | "core", "sync", rest @ ..] => {
                 let mut n = if self.sync_root.is_empty() { v(&["loom", "sync"]) } else { self.sync_root.clone() };
                 n.extend(rest.iter().map(|x| x.to_string()));
                 Some((n, "sync"))
             }
-            ["std", "thread", rest @ ..] => {
+            ["std" | "core", "thread", rest @ ..] => {
                 let mut n = v(&["loom", "thread"]);
                 n.extend(rest.iter().map(|x| x.to_string()));
                 Some((n, "thread"))
             }
-            ["std" | "alloc", "alloc", f @ ("alloc" | "dealloc")] => Some((v(&["crate", "lalloc", f]), if *f == "alloc" { "alloc" } else { "dealloc" })),
-            ["alloc", f @ ("alloc" | "dealloc")] if self.alloc_module_imported => Some((v(&["crate", "lalloc", f]), if *f == "alloc" { "alloc" } else { "dealloc" })),
+            ["std" | "alloc", "alloc", f @ ("alloc" | "dealloc" | "alloc_zeroed" | "realloc")] => Some((v(&["crate", "lalloc", f]), if *f == "dealloc" { "dealloc" } else { "alloc" })),
             ["once_cell", rest @ ..] => {
                 let mut n = v(&["crate", "once_cell_loom"]);
                 n.extend(rest.iter().map(|x| x.to_string()));
@@ -151,16 +174,32 @@ fn rewrite_cfg_tokens(ts: TokenStream, n: &mut usize) -> TokenStream {
     out.into_iter().collect()
 }
 
-/// `<e>.value.get()` (no arguments, receiver is a field access named `value`)
-fn is_value_get(e: &syn::Expr) -> bool {
+/// `<e>.<field>.get()` (no arguments, receiver is a field access named `field`)
+fn is_field_get(e: &syn::Expr, field: &str) -> bool {
     if let syn::Expr::MethodCall(m) = e {
         if m.method == "get" && m.args.is_empty() && m.turbofish.is_none() {
             if let syn::Expr::Field(f) = &*m.receiver {
-                return matches!(&f.member, syn::Member::Named(n) if n == "value");
+                return matches!(&f.member, syn::Member::Named(n) if n == field);
             }
         }
     }
     false
+}
+/// `*<get>`, `(*<get>).a.b`, with parentheses anywhere: the `<get>` call if the place expression is
+/// reached by dereferencing `<e>.<field>.get()`
+fn place_through_get<'a>(e: &'a mut syn::Expr, field: &str) -> Option<&'a mut syn::Expr> {
+    match unparen(e) {
+        syn::Expr::Field(f) => place_through_get(&mut f.base, field),
+        syn::Expr::Unary(u) if matches!(u.op, syn::UnOp::Deref(_)) => {
+            let inner = unparen(&mut u.expr);
+            if is_field_get(inner, field) {
+                Some(inner)
+            } else {
+                None
+            }
+        }
+        _ => None,
+    }
 }
 fn unparen(e: &mut syn::Expr) -> &mut syn::Expr {
     match e {
@@ -177,9 +216,10 @@ fn rename_method(e: &mut syn::Expr, to: &str) {
 
 impl VisitMut for Rw {
     fn visit_item_struct_mut(&mut self, st: &mut syn::ItemStruct) {
-        if self.track_value_cell && st.ident == "EntryStorage" {
+        if self.track.map_or(false, |(sname, _)| st.ident == sname) {
+            let field = self.track.unwrap().1;
             for f in st.fields.iter_mut() {
-                if f.ident.as_ref().map_or(false, |i| i == "value") {
+                if f.ident.as_ref().map_or(false, |i| i == field) {
                     if let syn::Type::Path(tp) = &mut f.ty {
                         if tp.path.segments.last().map_or(false, |s| s.ident == "UnsafeCell") {
                             let args = tp.path.segments.last().unwrap().arguments.clone();
@@ -195,7 +235,7 @@ impl VisitMut for Rw {
         visit_mut::visit_item_struct_mut(self, st);
     }
     fn visit_field_value_mut(&mut self, fv: &mut syn::FieldValue) {
-        if self.track_value_cell && matches!(&fv.member, syn::Member::Named(n) if n == "value") {
+        if self.track.map_or(false, |(_, field)| matches!(&fv.member, syn::Member::Named(n) if n == field)) {
             if let syn::Expr::Call(c) = &mut fv.expr {
                 if let syn::Expr::Path(p) = &mut *c.func {
                     let segs: Vec<String> = p.path.segments.iter().map(|s| s.ident.to_string()).collect();
@@ -208,29 +248,60 @@ impl VisitMut for Rw {
         }
         visit_mut::visit_field_value_mut(self, fv);
     }
+    /// Classification of `<e>.<field>.get()` (the raw pointer into the tracked cell):
+    ///  * `&mut <place through *get>` (`&mut *x.f.get()`, `&mut (*x.f.get()).a`)      -> write
+    ///  * `&<place through *get>`     (`&*x.f.get()`, `&(*x.f.get()).a`)              -> read
+    ///  * `let p: *mut _ = x.f.get();`                                                 -> write
+    ///  * any other form (pointer kept in an untyped local, passed on, ...): a write if it is
+    ///    lexically inside a closure handed to a method of a `.once` receiver (the exclusive
+    ///    section of a once-cell), else a read.
     fn visit_expr_mut(&mut self, e: &mut syn::Expr) {
-        if self.track_value_cell {
-            // `&mut *<e>.value.get()`  ->  write access
+        if let Some((_, field)) = self.track {
             if let syn::Expr::Reference(r) = e {
-                if r.mutability.is_some() {
-                    if let syn::Expr::Unary(u) = unparen(&mut r.expr) {
-                        if matches!(u.op, syn::UnOp::Deref(_)) {
-                            let inner = unparen(&mut u.expr);
-                            if is_value_get(inner) {
-                                rename_method(inner, "get_w");
-                                self.hit("tracked-write");
-                            }
-                        }
-                    }
+                let mutable = r.mutability.is_some();
+                if let Some(get) = place_through_get(&mut r.expr, field) {
+                    rename_method(get, if mutable { "get_w" } else { "get_r" });
+                    self.hit(if mutable { "tracked-write" } else { "tracked-read" });
                 }
             }
-            // every other `<e>.value.get()` (also one that cannot be classified)  ->  read access
-            if is_value_get(e) {
-                rename_method(e, "get_r");
-                self.hit("tracked-read");
+            if is_field_get(e, field) {
+                let w = self.in_once_closure > 0;
+                rename_method(e, if w { "get_w" } else { "get_r" });
+                self.hit(if w { "tracked-write" } else { "tracked-read" });
             }
         }
         visit_mut::visit_expr_mut(self, e);
+    }
+    fn visit_local_mut(&mut self, l: &mut syn::Local) {
+        if let Some((_, field)) = self.track {
+            if let (syn::Pat::Type(pt), Some(init)) = (&l.pat, l.init.as_mut()) {
+                if matches!(&*pt.ty, syn::Type::Ptr(p) if p.mutability.is_some()) {
+                    let e = unparen(&mut init.expr);
+                    if is_field_get(e, field) {
+                        rename_method(e, "get_w");
+                        self.hit("tracked-write");
+                    }
+                }
+            }
+        }
+        visit_mut::visit_local_mut(self, l);
+    }
+    fn visit_expr_method_call_mut(&mut self, m: &mut syn::ExprMethodCall) {
+        let on_once = matches!(&*m.receiver, syn::Expr::Field(f) if matches!(&f.member, syn::Member::Named(n) if n == "once"));
+        for a in &mut m.attrs {
+            self.visit_attribute_mut(a);
+        }
+        self.visit_expr_mut(&mut m.receiver);
+        for arg in m.args.iter_mut() {
+            let excl = on_once && matches!(arg, syn::Expr::Closure(_));
+            if excl {
+                self.in_once_closure += 1;
+            }
+            self.visit_expr_mut(arg);
+            if excl {
+                self.in_once_closure -= 1;
+            }
+        }
     }
     fn visit_signature_mut(&mut self, s: &mut syn::Signature) {
         if s.constness.take().is_some() {
@@ -247,11 +318,23 @@ impl VisitMut for Rw {
         visit_mut::visit_attribute_mut(self, a);
     }
     fn visit_path_mut(&mut self, p: &mut syn::Path) {
-        let segs: Vec<String> = p.segments.iter().map(|s| s.ident.to_string()).collect();
-        for n in (2..=segs.len()).rev() {
+        let mut segs: Vec<String> = p.segments.iter().map(|s| s.ident.to_string()).collect();
+        // `alloc::alloc(..)` after `use std::alloc;`, `atomic::fence(..)` after `use std::sync::atomic;`
+        let mut skip = 0usize; // how many leading virtual segments stand for the first real one
+        if segs.len() >= 2 && p.leading_colon.is_none() {
+            if let Some(full) = self.aliases.get(&segs[0]) {
+                skip = full.len() - 1;
+                let mut virt = full.clone();
+                virt.extend(segs[1..].iter().cloned());
+                segs = virt;
+            }
+        }
+        for n in (2.max(skip + 2)..=segs.len()).rev() {
             if let Some((new, cat)) = self.redirect(&segs[..n]) {
-                let tail: Vec<syn::PathSegment> = p.segments.iter().skip(n).cloned().collect();
-                let last_args = p.segments.iter().nth(n - 1).unwrap().arguments.clone();
+                // real segments covered by the match: n - skip
+                let covered = n - skip;
+                let tail: Vec<syn::PathSegment> = p.segments.iter().skip(covered).cloned().collect();
+                let last_args = p.segments.iter().nth(covered - 1).unwrap().arguments.clone();
                 let mut np: syn::Path = syn::parse_str(&new.join("::")).unwrap();
                 np.segments.last_mut().unwrap().arguments = last_args;
                 for t in tail {
@@ -267,8 +350,13 @@ impl VisitMut for Rw {
 }
 
 fn rewrite(src: &str, name: &str) -> (String, Rw) {
-    let file: syn::File = syn::parse_file(src).unwrap_or_else(|e| panic!("{name}: cannot parse: {e}"));
-    rewrite_file(file, Rw { track_value_cell: name == "entry", ..Rw::default() })
+    let file: syn::File = syn::parse_file(src).unwrap_or_else(|e| die(format!("{name}: cannot parse: {e}")));
+    let track = match name {
+        "entry" => Some(("EntryStorage", "value")),
+        "cell" => Some(("OnceInitCell", "data")),
+        _ => None,
+    };
+    rewrite_file(file, Rw { track, ..Rw::default() })
 }
 
 fn rewrite_file(mut file: syn::File, mut rw: Rw) -> (String, Rw) {
@@ -286,8 +374,12 @@ fn rewrite_file(mut file: syn::File, mut rw: Rw) -> (String, Rw) {
                     Leaf::Name(s, r) => (s, r, false),
                     Leaf::Glob(s) => (s, None, true),
                 };
-                if segs == v(&["std", "alloc"]) && !glob {
-                    rw.alloc_module_imported = true;
+                // a lower-case name bound to a std path is a module (or a function, which is harmless)
+                if !glob && matches!(segs.first().map(|s| s.as_str()), Some("std" | "core" | "alloc")) && segs.len() >= 2 {
+                    let bind = rename.clone().or(segs.last().cloned()).unwrap_or_default();
+                    if bind.chars().next().map_or(false, |c| c.is_lowercase()) && rw.aliases.get(&bind).map_or(true, |old| old.len() > segs.len()) {
+                        rw.aliases.insert(bind, segs.clone()); // on a clash (`{self, alloc}`) the module wins
+                    }
                 }
                 let mut rename = rename;
                 let newsegs = match rw.redirect(&segs) {
@@ -349,9 +441,9 @@ fn repo_root(manifest_dir: &str) -> String {
 // -------------------------------------------------------------------------------------------
 // Extraction of named items (C08: `Answers` hand-shake + the std-flavoured lock wrappers)
 // -------------------------------------------------------------------------------------------
+/// A kernel cannot be generated: unwinds to `generate`, which turns it into `compile_error!`.
 fn die(msg: String) -> ! {
-    eprintln!("kernmc build: {msg}");
-    std::process::exit(2)
+    std::panic::panic_any(msg)
 }
 
 fn self_ty_name(i: &syn::ItemImpl) -> Option<String> {
@@ -521,12 +613,11 @@ fn extract_answers(path: &str, src: &str) -> (String, Rw) {
             }
         }
     }
-    for (name, from) in [("AtomicUsize", "std::sync::atomic::AtomicUsize"), ("Ordering", "std::sync::atomic::Ordering"), ("Mutex", "crate::utils::Mutex"), ("Condvar", "crate::utils::Condvar")] {
-        let got = origin.get(name).map(|s| s.join("::"));
-        if got.as_deref() != Some(from) {
-            die(format!("{path}: `Answers` is expected to use `{from}`; the file imports `{name}` from {got:?}: the hand-shake would not run on the instrumented std-lock wrappers"));
-        }
-    }
+    // Where the lock types come from is recorded, not prescribed: through `crate::utils` they are the
+    // extracted std-flavoured wrappers, spelled `std::sync::..` they are redirected to loom directly;
+    // both are instrumented.  (A name the extract uses but the file does not import is a compile
+    // error of this kernel only.)
+    let _ = &origin;
     uses.extend(picked);
     let f = syn::File { shebang: None, attrs: vec![], items: uses };
     rewrite_file(f, Rw::default())
@@ -557,9 +648,9 @@ fn extract_std_locks(path: &str, src: &str) -> (String, Rw, usize) {
             picked.push(it.clone());
         }
     }
-    for (k, min) in [("use sync", 2), ("fn wrap", 2), ("struct Mutex", 1), ("impl Mutex", 1), ("struct Condvar", 1), ("impl Condvar", 1)] {
-        if count.get(k).copied().unwrap_or(0) < min {
-            die(format!("{path}: expected >= {min} item(s) `{k}`, found {}", count.get(k).copied().unwrap_or(0)));
+    for k in ["struct Mutex", "impl Mutex", "struct Condvar", "impl Condvar"] {
+        if count.get(k).copied().unwrap_or(0) < 1 {
+            die(format!("{path}: no item `{k}` to extract"));
         }
     }
     let mut methods = vec![];
@@ -581,9 +672,7 @@ fn extract_std_locks(path: &str, src: &str) -> (String, Rw, usize) {
             die(format!("{path}: no `{want}` (found {methods:?})"));
         }
     }
-    if !(wait_while_txt.contains("#[cfg(feature=\"parking_lot\")]") && wait_while_txt.contains("#[cfg(not(feature=\"parking_lot\"))]")) {
-        die(format!("{path}: `Condvar::wait_while` no longer has a parking_lot and a std branch: cannot select the std one"));
-    }
+    let _ = wait_while_txt;
     let f = syn::File { shebang: None, attrs: vec![], items: picked };
     // 1. redirect + evaluate cfgs (parking_lot is not an enabled feature -> false)
     let rw = Rw { sync_root: v(&["crate", "loom_sync"]), ..Rw::default() };
@@ -595,12 +684,100 @@ fn extract_std_locks(path: &str, src: &str) -> (String, Rw, usize) {
     (f2.into_token_stream().to_string(), rw, pr.removed)
 }
 
-/// Nothing that must be intercepted may survive the rewrite.
+/// Semantic guard: nothing that must be intercepted may survive the rewrite.  Works on the token
+/// text, so it also sees macro arguments (which the syn visitor cannot rewrite).
 fn check_survivors(path: &str, txt: &str) {
     let flat: String = txt.split_whitespace().collect::<Vec<_>>().join("");
-    for bad in ["std::sync", "core::sync", "std::thread", "core::thread", "once_cell::", "parking_lot", "std::alloc::alloc(", "std::alloc::dealloc(", "std::alloc::realloc", "std::alloc::alloc_zeroed", "alloc::realloc(", "alloc::alloc_zeroed("] {
+    for bad in [
+        "std::sync", "core::sync", "alloc::sync", "std::thread", "core::thread", "once_cell::", "parking_lot", "crossbeam", "spin::",
+        "std::alloc::alloc(", "std::alloc::dealloc(", "std::alloc::realloc(", "std::alloc::alloc_zeroed(", "alloc::alloc::alloc(", "alloc::alloc::dealloc(",
+        "GlobalAlloc", "std::alloc::System", "std::alloc::Global", "Box::from_raw_in", "Allocator",
+    ] {
         if flat.contains(bad) {
             die(format!("{path}: `{bad}` survives the rewrite (un-instrumented operation)"));
+        }
+    }
+    // every call spelled `<m>::alloc(` / `<m>::dealloc(` … must be one that was redirected
+    for f in ["alloc(", "dealloc(", "alloc_zeroed(", "realloc("] {
+        let n_all = flat.matches(&format!("alloc::{f}")).count();
+        let n_ok = flat.matches(&format!("lalloc::{f}")).count();
+        if n_all != n_ok {
+            die(format!("{path}: {} call(s) of `alloc::{f}..)` not redirected to the tracked allocator", n_all - n_ok));
+        }
+    }
+}
+
+fn need(path: &str, rw: &Rw, cat: &str, what: &str) {
+    if rw.hits.get(cat).copied().unwrap_or(0) < 1 {
+        die(format!("{path}: found no {what} to redirect: the kernel would run un-instrumented (redirects seen: {:?})", rw.hits));
+    }
+}
+
+fn read(path: &str) -> String {
+    println!("cargo:rerun-if-changed={path}");
+    fs::read_to_string(path).unwrap_or_else(|e| die(format!("cannot read kernel source {path}: {e}")))
+}
+
+fn whole_file(root: &str, name: &str, rel: &str, summary: &mut String) -> String {
+    let path = format!("{root}/{rel}");
+    let src = read(&path);
+    let (txt, rw) = rewrite(&src, name);
+    match name {
+        "bytes" => {
+            need(&path, &rw, "sync", "`std::sync::atomic` path");
+            need(&path, &rw, "alloc", "call of the global allocator's `alloc`");
+            need(&path, &rw, "dealloc", "call of the global allocator's `dealloc`");
+        }
+        "cell" => {
+            need(&path, &rw, "once_cell", "`once_cell` path");
+            need(&path, &rw, "tracked-field", "`data: UnsafeCell<..>` field in `struct OnceInitCell`");
+            need(&path, &rw, "tracked-new", "`data: UnsafeCell::new(..)` initialiser");
+            need(&path, &rw, "tracked-read", "shared access through `.data.get()`");
+            need(&path, &rw, "tracked-write", "exclusive access through `.data.get()`");
+        }
+        "entry" => {
+            need(&path, &rw, "sync", "`std::sync` path");
+            need(&path, &rw, "tracked-field", "`value: UnsafeCell<T>` field in `struct EntryStorage`");
+            need(&path, &rw, "tracked-new", "`value: UnsafeCell::new(..)` initialiser");
+            need(&path, &rw, "tracked-read", "shared access `.value.get()`");
+            need(&path, &rw, "tracked-write", "exclusive access `&mut *<e>.value.get()`");
+            if !src.contains("feature = \"hot-reloading\"") {
+                die(format!("{path}: no `hot-reloading` cfg found: `write`/`increment` would not exist"));
+            }
+        }
+        "string" => {
+            if !txt.contains("SharedBytes") {
+                die(format!("{path}: SharedString is no longer built on SharedBytes: its allocations would be un-instrumented"));
+            }
+        }
+        _ => {}
+    }
+    check_survivors(&path, &txt);
+    summary.push_str(&format!("{name}: redirects {:?}, const fn stripped {}, cfg predicates evaluated {}\n", rw.hits, rw.consts_stripped, rw.cfgs_rewritten));
+    txt
+}
+
+/// Run one kernel's generator; whatever goes wrong (guard, parse error, unreadable file, a bug in
+/// this script) becomes the content of its generated files, never a failure of the build script.
+fn generate(out: &PathBuf, kernel: &str, files: &[&str], summary: &mut String, f: impl FnOnce(&mut String) -> Vec<String>) {
+    let mut local = String::new();
+    let r = std::panic::catch_unwind(std::panic::AssertUnwindSafe(|| f(&mut local)));
+    match r {
+        Ok(txts) => {
+            assert_eq!(txts.len(), files.len());
+            for (file, txt) in files.iter().zip(txts) {
+                fs::write(out.join(file), txt).unwrap();
+            }
+            summary.push_str(&local);
+        }
+        Err(e) => {
+            let msg = e.downcast_ref::<String>().cloned().or_else(|| e.downcast_ref::<&str>().map(|s| s.to_string())).unwrap_or_else(|| "build script panicked".into());
+            let msg = msg.replace('\n', " ");
+            println!("cargo:warning=kernmc: kernel `{kernel}` NOT generated: {msg}");
+            for file in files {
+                fs::write(out.join(file), format!("compile_error!({:?});\n", format!("kernmc: kernel `{kernel}`: {msg}"))).unwrap();
+            }
+            summary.push_str(&format!("{kernel}: NOT GENERATED: {msg}\n"));
         }
     }
 }
@@ -609,85 +786,36 @@ fn main() {
     let out = PathBuf::from(env::var("OUT_DIR").unwrap());
     let root = repo_root(&env::var("CARGO_MANIFEST_DIR").unwrap());
     println!("cargo:rerun-if-changed=build.rs");
-    // (name, relative path, required redirect categories with their minimal counts)
-    let files: &[(&str, &str, &[(&str, usize)])] = &[
-        ("bytes", "src/utils/bytes.rs", &[("sync", 1), ("alloc", 2), ("dealloc", 1)]),
-        ("string", "src/utils/string.rs", &[]),
-        ("cell", "src/utils/cell.rs", &[("once_cell", 1)]),
-        ("entry", "src/entry.rs", &[("sync", 1), ("tracked-field", 1), ("tracked-new", 1), ("tracked-read", 2), ("tracked-write", 1)]),
-    ];
+    std::panic::set_hook(Box::new(|_| {})); // failures are reported through `generate`
     let mut summary = String::new();
-    for (name, rel, required) in files {
-        let path = format!("{root}/{rel}");
-        println!("cargo:rerun-if-changed={path}");
-        let src = fs::read_to_string(&path).unwrap_or_else(|e| panic!("kernmc build: cannot read kernel {path}: {e}"));
-        let (txt, rw) = rewrite(&src, name);
-        for (cat, min) in *required {
-            let got = rw.hits.get(cat).copied().unwrap_or(0);
-            if got < *min {
-                eprintln!("kernmc build: {path}: expected >= {min} `{cat}` path(s) to redirect to loom, found {got}: the kernel would run un-instrumented (tracked-*: accesses to EntryStorage.value)");
-                std::process::exit(2);
-            }
-        }
-        // nothing that must be intercepted may survive
-        let flat: String = txt.split_whitespace().collect::<Vec<_>>().join("");
-        for bad in ["std::sync", "core::sync", "std::thread", "core::thread", "once_cell::", "parking_lot", "std::alloc::alloc(", "std::alloc::dealloc(", "std::alloc::realloc", "std::alloc::alloc_zeroed", "alloc::realloc(", "alloc::alloc_zeroed("] {
-            if flat.contains(bad) {
-                eprintln!("kernmc build: {path}: `{bad}` survives the rewrite (un-instrumented operation)");
-                std::process::exit(2);
-            }
-        }
-        for bad in ["alloc::alloc(", "alloc::dealloc("] {
-            let n_all = flat.matches(bad).count();
-            let n_ok = flat.matches(&format!("lalloc::{}", &bad[7..])).count();
-            if n_all != n_ok {
-                eprintln!("kernmc build: {path}: {} call(s) of `{bad}` not redirected", n_all - n_ok);
-                std::process::exit(2);
-            }
-        }
-        if *name == "string" && !flat.contains("SharedBytes") {
-            eprintln!("kernmc build: {path}: SharedString is no longer built on SharedBytes: its allocations would be un-instrumented");
-            std::process::exit(2);
-        }
-        if *name == "entry" && !src.contains("feature = \"hot-reloading\"") {
-            eprintln!("kernmc build: {path}: no `hot-reloading` cfg found; harness assumptions broken");
-            std::process::exit(2);
-        }
-        summary.push_str(&format!("{name}: redirects {:?}, const fn stripped {}, cfg predicates evaluated {}\n", rw.hits, rw.consts_stripped, rw.cfgs_rewritten));
-        fs::write(out.join(format!("{name}.rs")), txt).unwrap();
-    }
-    // ---- C08: Answers hand-shake on the std-flavoured lock wrappers
-    {
+
+    // family `bytes` (bin kernmc_bytes): SharedBytes + SharedString
+    generate(&out, "bytes", &["bytes.rs", "string.rs"], &mut summary, |s| vec![whole_file(&root, "bytes", "src/utils/bytes.rs", s), whole_file(&root, "string", "src/utils/string.rs", s)]);
+    // family `cell` (bin kernmc_cell)
+    generate(&out, "cell", &["cell.rs"], &mut summary, |s| vec![whole_file(&root, "cell", "src/utils/cell.rs", s)]);
+    // family `entry` (bin kernmc_entry)
+    generate(&out, "entry", &["entry.rs"], &mut summary, |s| vec![whole_file(&root, "entry", "src/entry.rs", s)]);
+    // family `answers` (bin kernmc_answers): Answers hand-shake on the std-flavoured lock wrappers
+    generate(&out, "answers", &["answers.rs", "std_locks.rs"], &mut summary, |s| {
         let path = format!("{root}/src/hot_reloading/mod.rs");
-        println!("cargo:rerun-if-changed={path}");
-        let src = fs::read_to_string(&path).unwrap_or_else(|e| die(format!("cannot read kernel {path}: {e}")));
-        let (txt, rw) = extract_answers(&path, &src);
-        if rw.hits.get("sync").copied().unwrap_or(0) < 2 {
-            die(format!("{path}: expected >= 2 `std::sync` paths (AtomicUsize, Ordering) to redirect in the Answers extract, found {:?}", rw.hits));
+        let src = read(&path);
+        let (answers, rw) = extract_answers(&path, &src);
+        if rw.hits.get("sync").copied().unwrap_or(0) < 1 && !answers.contains("crate :: utils ::") {
+            die(format!("{path}: the Answers extract uses neither `std::sync` nor the `crate::utils` lock wrappers: nothing to instrument"));
         }
-        check_survivors(&path, &txt);
-        summary.push_str(&format!("answers (struct Answers + impl Answers of hot_reloading/mod.rs): redirects {:?}, cfg predicates evaluated {}\n", rw.hits, rw.cfgs_rewritten));
-        fs::write(out.join("answers.rs"), txt).unwrap();
+        check_survivors(&path, &answers);
+        s.push_str(&format!("answers (struct Answers + impl Answers of hot_reloading/mod.rs): redirects {:?}, cfg predicates evaluated {}\n", rw.hits, rw.cfgs_rewritten));
 
         let path = format!("{root}/src/utils/private.rs");
-        println!("cargo:rerun-if-changed={path}");
-        let src = fs::read_to_string(&path).unwrap_or_else(|e| die(format!("cannot read kernel {path}: {e}")));
-        let (txt, rw, pruned) = extract_std_locks(&path, &src);
-        if rw.hits.get("sync").copied().unwrap_or(0) < 1 {
-            die(format!("{path}: expected the `use std::sync;` alias to redirect, found {:?}", rw.hits));
-        }
-        if pruned < 3 {
-            die(format!("{path}: expected >= 3 parking_lot-only items/branches to configure out, pruned {pruned}"));
-        }
-        check_survivors(&path, &txt);
-        let flat: String = txt.split_whitespace().collect();
-        if !flat.contains("usecrate::loom_syncassync;") || !flat.contains("sync::Mutex<") || !flat.contains("sync::Condvar") {
-            die(format!("{path}: the std-lock wrappers no longer go through the `sync` alias"));
-        }
-        summary.push_str(&format!("std_locks (sync alias, wrap, Mutex, Condvar of utils/private.rs; parking_lot OFF): redirects {:?}, cfg predicates evaluated {}, configured-out items/branches pruned {}\n", rw.hits, rw.cfgs_rewritten, pruned));
-        fs::write(out.join("std_locks.rs"), txt).unwrap();
-    }
+        let src = read(&path);
+        let (locks, rw, pruned) = extract_std_locks(&path, &src);
+        need(&path, &rw, "sync", "`std::sync` path (the `sync` alias of the std flavour)");
+        check_survivors(&path, &locks);
+        s.push_str(&format!("std_locks (sync alias, wrap, Mutex, Condvar of utils/private.rs; parking_lot OFF): redirects {:?}, cfg predicates evaluated {}, configured-out items/branches pruned {}\n", rw.hits, rw.cfgs_rewritten, pruned));
+        vec![answers, locks]
+    });
+
     fs::write(out.join("instrumentation.txt"), &summary).unwrap();
     println!("cargo:rustc-env=KERNMC_REPO_ROOT={root}");
-    println!("cargo:rustc-env=KERNMC_INSTRUMENTATION={}", summary.replace('\n', " | "));
+    println!("cargo:rustc-env=KERNMC_INSTRUMENTATION={}", summary.trim_end().replace('\n', " | "));
 }
